@@ -712,6 +712,9 @@ pub fn run_check(driver: &dyn Driver, ctx: &Ctx) -> i32 {
             unmet.push(format!("{lost} unit(s) produced no report"));
         }
     }
+    if agg.samples.is_empty() {
+        unmet.push("no sample case was recorded for the evidence file".to_string());
+    }
     let wall = t0.elapsed().as_secs_f64();
     let evidence = json!({
         "property_id": id,
